@@ -137,7 +137,7 @@ def parse_directive(block):
         raise AssembleError("bad extract header: " + head)
     d = {"file": m.group(1), "impl_re": m.group(2), "kind": m.group(3), "name": m.group(4).strip(),
          "ret": None, "rename": None, "prefix": "", "body": None, "auto": True, "canary": True,
-         "rewrites": [], "contract": "", "loops": {}, "before": [], "after": [], "top": "", "bottom": "", "after_loops": {}, "loop_ends": {}, "sig": None,
+         "rewrites": [], "contract": "", "loops": {}, "before": [], "after": [], "top": "", "bottom": "", "after_loops": {}, "loop_ends": {}, "sig": None, "lift": None,
          "class": "prop"}
     cur = None
     buf = []
@@ -211,6 +211,10 @@ def parse_directive(block):
         mm = re.match(r"(before|after)\s+(" + _STR + r"):\s*$", s)
         if mm:
             cur = (mm.group(1), _unq(mm.group(2)))
+            continue
+        mm = re.match(r"lift\s+(" + _STR + r")\s*$", s)
+        if mm:
+            d["lift"] = _unq(mm.group(1))
             continue
         mm = re.match(r"contract_file:\s*(\S+)$", s)
         if mm:
@@ -334,6 +338,21 @@ def build_item(d, canary=False, repo=REPO):
     if d["kind"] != "fn":
         out = apply_rewrites(item_text, d, log, where)
         return d["prefix"] + (" " if d["prefix"] else "") + out, meta
+    if d.get("lift"):
+        # N10-lift: the body of the closure that starts at the anchor (anchor text ends with its opening brace) becomes the
+        # body of a named function (signature given by `sig:`); everything around the closure is dropped from this item
+        anchor = d["lift"]
+        n_ = item_text.count(anchor)
+        if n_ != 1:
+            raise AssembleError("lift anchor lost in %s: %r occurs %d times" % (where, anchor, n_))
+        from rustscan import match_brace
+        m_ = code_mask(item_text)
+        ob = item_text.index(anchor) + len(anchor) - 1
+        if m_[ob] != "{":
+            raise AssembleError("lift anchor in %s must end with the closure's opening brace" % where)
+        cb = match_brace(m_, ob)
+        log.append({"rule": "N10-lift", "fn": where, "from": anchor, "to": "closure body lifted into a named function; surrounding text dropped"})
+        item_text = "fn lifted__() " + item_text[ob:cb + 1]
     # rules apply to the whole item (signature and body), then the text is split again
     item_text = apply_rewrites(item_text, d, log, where)
     mask = code_mask(item_text)
